@@ -1164,6 +1164,16 @@ class Interp:
             # references are resolved syntactically by the Resolver; keep an explicit Ref
             # only for locals that are not single-assignment temps
             root, proj = fr.root_of(rv['place'])
+            # `&(*p).f` where the local p stands for a reference by holding its referent's value (iterator items, by-value
+            # models of `&T`): the new reference must keep designating that referent when p is reassigned (loop variables),
+            # so the referent is given a place of its own
+            pl_ = fr.res.norm_place(rv['place'])
+            if (not rv.get('mut') and pl_['p'] and pl_['p'][0][0] == 'deref' and root == pl_['l'] and isinstance(root, int)
+                    and root > 0 and isinstance(fr.store.get(root), Agg) and fr.body.local_ty(root).startswith('&')):
+                self.fresh += 1
+                key = ('referent', self.fresh, root)
+                fr.store[key] = fr.store[root]
+                root = key
             # a reference designates the element the index selects *now*: bind the index value into the projection
             # (it may outlive the index variable, e.g. when a helper returns `&table[i]`)
             if any(e[0] == 'i' for e in proj):
@@ -1890,6 +1900,7 @@ class Interp:
         cbody = self.facts.body(res)
         cargs = []
         nested = {}      # references nested inside argument values: re-rooted in the callee (read-only snapshot)
+        origin = {}      # re-rooted key -> the caller's own reference (restored in whatever the callee hands back)
 
         def reroot(v, depth=0):
             if isinstance(v, Ref) and depth < 6:
@@ -1900,6 +1911,7 @@ class Interp:
                     val = self._ref_value(fr, val)
                 key = ('arg', len(nested), len(fr.store))
                 nested[key] = reroot(val, depth + 1) if (isinstance(val, Agg) and type(val) is Agg) else val
+                origin[key] = v
                 return Ref(key, [])
             if isinstance(v, Agg) and type(v) is Agg and depth < 6:
                 return Agg([reroot(x, depth + 1) for x in v.items], v.kind)
@@ -1931,6 +1943,20 @@ class Interp:
         diverging = [r for r in results if isinstance(r[1], tuple) and r[1] and r[1][0] == 'diverges']
         results = [r for r in results if not (isinstance(r[1], tuple) and r[1] and r[1][0] == 'diverges')]
 
+        def unroot(x, depth=0):
+            # references that were re-rooted for the callee and come back (in a written-back struct or in the result)
+            # designate the caller's own places again
+            if depth > 6:
+                return x
+            if isinstance(x, Ref) and x.root in origin:
+                o_ = origin[x.root]
+                return Ref(o_.root, list(o_.proj) + list(x.proj))
+            if isinstance(x, Agg) and type(x) is Agg and any(isinstance(y, (Ref, Agg, Opt)) for y in x.items):
+                return Agg([unroot(y, depth + 1) for y in x.items], x.kind)
+            if isinstance(x, Opt) and isinstance(x.payload, (Ref, Agg)):
+                return Opt(x.tag, unroot(x.payload, depth + 1), x.label)
+            return x
+
         def apply(frame, r):
             p2, ret, outs = r
             for k_ in self.shared_keys:
@@ -1939,8 +1965,8 @@ class Interp:
             for i, a in enumerate(t['args']):
                 ty = cbody.local_ty(i + 1)
                 if ty.startswith('&mut') and (i + 1) in outs:
-                    frame.store_through(a, outs[i + 1])
-            frame.storev(t['dest'], ret)
+                    frame.store_through(a, unroot(outs[i + 1]) if origin else outs[i + 1])
+            frame.storev(t['dest'], unroot(ret) if origin else ret)
 
         if self.fork_inlined and self._fork_ctx is not None and (len(results) > 1 or diverging):
             # the callee's paths become paths of the caller (labels and events are carried over)
